@@ -4,7 +4,7 @@
    Gen/Generated.v on this run; the four [tie_*] facts are decided by computation against it. *)
 From Coq Require Import List NArith Bool.
 From Conductor Require Import Lib.Regex Lib.RegexBisim Lib.PyRegex Lib.Str
-  Gen.Generated Model.Ident Proofs.IdentSpec Proofs.IdentProofs.
+  Gen.Generated Model.Ident Model.Env Proofs.IdentSpec Proofs.IdentProofs Proofs.PathString.
 Import ListNotations.
 Local Open Scope N_scope.
 
@@ -58,6 +58,25 @@ Theorem C20_outdir_inj : forall i1 v1 i2 v2,
   WfIdent i1 -> WfIdent i2 -> out_path i1 v1 = out_path i2 v2 -> i1 = i2 /\ v1 = v2.
 Proof. exact (out_path_inj tie_suffix). Qed.
 Print Assumptions C20_outdir_inj.
+
+(* ... also as path STRINGS, which is what the file system sees: below one project root, two different (identifier, version)
+   pairs never give the same output location (no component can contain '/': names by the grammar, `cond-out` and `.task` by
+   computation on the configuration as it is now, versions because they are decimal numbers), and every output location
+   lies strictly below <root>/cond-out/ *)
+Lemma tie_outdir_no_slash : forallb (fun c => negb (c =? SLASH)) cfg_OUTPUT_DIR = true.
+Proof. vm_compute. reflexivity. Qed.
+Lemma tie_suffix_no_slash : forallb (fun c => negb (c =? SLASH)) cfg_TASK_OUTPUT_DIR_SUFFIX = true.
+Proof. vm_compute. reflexivity. Qed.
+
+Theorem C20_output_location_strings_distinct : forall root i1 v1 i2 v2,
+  WfIdent i1 -> WfIdent i2 -> cond_out root i1 v1 = cond_out root i2 v2 -> i1 = i2 /\ v1 = v2.
+Proof. exact (cond_out_string_inj tie_outdir_no_slash tie_suffix_no_slash tie_suffix). Qed.
+Print Assumptions C20_output_location_strings_distinct.
+
+Theorem C20_output_location_below_cond_out : forall root i v,
+  exists rest, cond_out root i v = root ++ SLASH :: cfg_OUTPUT_DIR ++ SLASH :: rest.
+Proof. exact cond_out_below_output_dir. Qed.
+Print Assumptions C20_output_location_below_cond_out.
 
 (* ... and no output directory lies inside another task's output directory *)
 Theorem C20_outdir_not_nested : forall i1 v1 i2 v2 rest,
